@@ -89,10 +89,23 @@ def check_loop(ctx, key):
     # writers of current_volume
     writers = [n for n in ast.walk(sl.loop) if isinstance(n, (ast.Assign, ast.AugAssign))
                and src((n.targets[0] if isinstance(n, ast.Assign) else n.target)) == 'current_volume']
+    single = util.single_defs(sl.f)
     for w in writers:
-        ok = isinstance(w, ast.AugAssign) and isinstance(w.op, ast.Add) and isinstance(w.value, ast.Call) \
-            and src(w.value.func) == 'v.get_volume_step' and \
-            [src(util.strip_cast(a)).replace(' ', '') for a in w.value.args] == \
+        # `current_volume += step` in either spelling; the step may be named first (a local assigned once, just before, in the same block)
+        af = util.aug_form(w)
+        val = util.strip_cast(af[2]) if af is not None and af[1] is ast.Add else None
+        if isinstance(val, ast.Name) and single.get(val.id) is not None:
+            dstmt = getattr(single[val.id], '_parent', None)
+            blk = None
+            par = getattr(w, '_parent', None)
+            for fld in ('body', 'orelse'):
+                if par is not None and w in (getattr(par, fld, None) or []):
+                    blk = getattr(par, fld)
+            if blk is not None and dstmt in blk and blk.index(dstmt) < blk.index(w) and \
+                    not any('current_volume' in util.assigned_names(x) or 'current_time' in util.assigned_names(x) for x in blk[blk.index(dstmt) + 1:blk.index(w)]):
+                val = util.strip_cast(single[val.id])
+        ok = isinstance(val, ast.Call) and src(val.func) == 'v.get_volume_step' and \
+            [src(util.strip_cast(a)).replace(' ', '') for a in val.args] == \
             ['c_current_state.data', 'sim.get_param_values()', 'current_time', 'current_volume', 'delta_t']
         if not ok:
             problems.append('current_volume written by `%s`' % src(w))
@@ -111,7 +124,7 @@ def check_loop(ctx, key):
         problems.append('the clock of the growth steps was not found (%s)' % sorted(clocks))
     else:
         c0 = sl.prelude_assign(list(clocks)[0])
-        t0 = sl.prelude_assign('current_time')
+        t0 = sl.prelude_assign('current_time', resolve=True)
         c_txt = src(c0).replace(' ', '') if c0 is not None else None
         t_txt = src(util.strip_cast(t0)).replace(' ', '') if t0 is not None else None
         if c_txt not in ('delta_t+current_time', 'current_time+delta_t') or t_txt != 'sim.get_initial_time()':
@@ -198,7 +211,8 @@ def check_growth(ctx):
                 cands = [x for x in val.atoms(sp.Function) if 'growth_rate' in str(x.func)]
                 g = cands[0] if cands else sp.Symbol('g')
                 call = [c for c in ast.walk(f) if isinstance(c, ast.Call) and src(c.func) == 'self.growth_rate.evaluate']
-                if len(call) != 1 or [src(x) for x in call[0].args] != [a[0], a[1], a[2]]:
+                sd_ = util.single_defs(f)
+                if len(call) != 1 or [src(util.resolve_alias(x, sd_)) for x in call[0].args] != [a[0], a[1], a[2]]:
                     detail += '; growth rate not evaluated at (state, params, time)'
                     g = None
             if g is not None:
